@@ -30,6 +30,12 @@ CHECKS = {
  "C19": {"level": "exploration", "design_ref": "DESIGN.md §6 C19", "technique": TECH,
          "text": "A consumer task drains the consumable intersect traces of a kernel into a fresh intersector at every subset of the first four fiber boundaries (complete), at all boundaries, only at the end, and at random subsets; the totals of the two-finger, skip-ahead and leader-follower models must equal merge counters computed on the raw coordinate lists for every schedule.",
          "note": "Batch boundaries fall on fiber boundaries only (as the property states). The swap-count model (numSwaps) is a pure function and is not simulated."},
+ "C13": {"level": "exploration", "design_ref": "DESIGN.md §6 C13", "technique": TECH,
+         "text": "PARTIAL claim: only the seeded-random clause (the process-global PRNG is an environment the simulator owns and perturbs between constructions) and the YAML-through-files clause (dump onto fresh / older / torn files left by a dump aborted at every file event, read back under worst-case buffering) are decided. The nest->tensor->uncompress and dictionary clauses are pure functions and are not decided by this technique.",
+         "note": "Tuple-coordinate tensors are not dumped in exploration; their YAML form is recorded as known finding F13 and replayed on every run."},
+ "C17": {"level": "fault_enumeration", "design_ref": "DESIGN.md §6 C17", "technique": TECH + "; abort/failure injected at every file event of each sampled pipeline",
+         "text": "Each sampled pipeline (buffet / cache / filterTrace / _combineTraces over synthetic well-formed traces) runs once undisturbed through the file seam and is judged against reference policy models (window rule; Belady-MIN with bypass, itself cross-checked by exhaustive search on tiny instances; stable merge; point filter), then once per file event n with the call aborted (torn write) or failed (ENOSPC) at n and restarted: the restart must give the undisturbed result, leave inputs untouched, close its handles and remove every temporary, also in the presence of stale temporaries.",
+         "note": "Exact optimality only for single-binding read-only cache configurations; with writes or several bindings the metamorphic bounds (distinct lines <= fills <= accesses, monotone in capacity) are demanded. Nothing is required of the aborted call itself."},
 }
 
 NOT_APPLICABLE = [
@@ -42,8 +48,6 @@ NOT_APPLICABLE = [
  {"property_id": "C14", "reason": "each clause relates attributes of a result to attributes of the operand of one call"},
  {"property_id": "C18", "reason": "a footprint is a sum over the tree and specification of one call; its only history dependence (rank lists) is decided under C02"},
  {"property_id": "C20", "reason": "Codec.encode is a pure function of (tensor, descriptor); no I/O, no state, the cache object only feeds statistics"},
- {"property_id": "C13", "reason": "not yet built in this revision (PRNG / YAML seams pending)"},
- {"property_id": "C17", "reason": "not yet built in this revision (PipelineSim pending)"},
 ]
 
 NOTES = ("All checks: /venv/bin/python /verif/dst/check.py <id> --tier quick|thorough [--replay file]; exit 0 held / 1 VIOLATION / 2 harness fault. "
